@@ -236,6 +236,53 @@ pub fn tok_refused_clone<const N: usize>() {
     std::mem::forget(world);
 }
 
+/// Archetypes that mix a column with drop glue and plain-data columns (both orders), public API
+/// only: every token still in storage is dropped exactly once with its world, also in the clone.
+pub fn mixed_drop(with_clone: bool) {
+    use crate::worlds::wmx::*;
+    reset();
+    let n_tp = sym::any_usize();
+    let n_pt = sym::any_usize();
+    sym::assume(n_tp <= 2 && n_pt <= 2);
+    let mut world = WMX::with_capacity(WMXCapacity { arch_tp: 2, arch_pt: 2, arch_pp: 1 });
+    let mut i = 0;
+    while i < 2 {
+        if i < n_tp {
+            world.create::<ArchTp>((Tok(i as u8), Plain(7)));
+        }
+        if i < n_pt {
+            world.create::<ArchPt>((Plain(9), Tok(2 + i as u8)));
+        }
+        i += 1;
+    }
+    world.create::<ArchPp>((Plain(1),));
+    if with_clone {
+        let c = world.clone();
+        drop(c);
+        let mut i = 0;
+        while i < 2 {
+            unsafe {
+                assert!(DROPS[8 + i] == (i < n_tp) as u8 && DROPS[8 + 2 + i] == (i < n_pt) as u8, "dropping a cloned world did not drop each of its components exactly once (mixed archetype)");
+                assert!(DROPS[i] == 0 && DROPS[2 + i] == 0, "dropping the clone dropped a component of the original");
+            }
+            i += 1;
+        }
+    }
+    drop(world);
+    let mut i = 0;
+    while i < 2 {
+        unsafe {
+            assert!(DROPS[i] == (i < n_tp) as u8, "a live component was not dropped exactly once with its world (archetype mixing drop glue and plain data)");
+            assert!(DROPS[2 + i] == (i < n_pt) as u8, "a live component was not dropped exactly once with its world (archetype mixing plain data and drop glue)");
+        }
+        i += 1;
+    }
+    cover!(n_tp == 2 && n_pt == 1, "both mixed archetypes populated");
+    cover!(n_tp == 0 && n_pt == 0, "nothing with drop glue alive");
+}
+
+harness! { fn c04_mixed_drop() unwind(12) { mixed_drop(false) } }
+harness! { fn c04_mixed_clone_drop() unwind(12) { mixed_drop(true) } }
 harness! { fn c04_refused_clone_2() unwind(10) { tok_refused_clone::<2>() } }
 harness! { fn c04_destroy_typed_3() unwind(10) { tok_destroy::<3>(0) } }
 harness! { fn c04_destroy_direct_forget_3() unwind(10) { tok_destroy::<3>(1) } }
